@@ -51,7 +51,11 @@ def describe_spec(t, keys):
 
 PROGRAMS = ["-a", "!b", "not a", "a+b", "a*b+c", "a == b", "a in [1,2]", "a++", "b--", "a ? b : c", "f(a, 1)", "g()", "a", "b", "[a, 1, 'x']",
             "{a: b, 1: 2}", "a; b", "a = 1; f(a); [a]", "-(a+b)", "f(g(a), [b ? 1 : 2])", "{'k': [a++, -b]}", "a not in [b]", "1.50 + 2", "'q\"q'",
-            "(a ? b : c) ? [1] : {2: 3}", "a + b; a - b", "f(a) + g(b)", "b + a", "-b", "a--"]
+            "(a ? b : c) ? [1] : {2: 3}", "a + b; a - b", "f(a) + g(b)", "b + a", "-b", "a--",
+            # the same sub-tree written twice, and sub-trees that differ only in how a number is written (1, 1.0, 1.00 are equal
+            # as numbers and are three different texts): every node is rendered from ITS OWN literal
+            "a * 0.10 > 5 ? a * 0.1 : 0", "[[1], [1.0], [1.00], [1]]", "f(1.50) + f(1.5) + f(1.50)", "-(1.0) + -(1)", "{1: [2.0], 1.0: [2]}",
+            "a + b * 2.0; a + b * 2", "[a++, a++]"]
 
 class P:
     prop = "C18"
@@ -99,7 +103,7 @@ class P:
             items.append((" ".join(sds + ["PARSE:" + hx(p) for p in deep_programs]), (set(cfg), len(sds), deep_programs)))
         for cfg in configs:
             sds = ["SD:%s:%s" % (k, hx(n)) for k, n in cfg]
-            ps = list(PROGRAMS) if tier != "quick" else rng.sample(PROGRAMS, 12)
+            ps = list(PROGRAMS) if tier != "quick" else rng.sample(PROGRAMS[:30], 10) + rng.sample(PROGRAMS[30:], 3)
             if tier != "quick":
                 ps += ["; ".join(progs.render_min(t, PT) for t in progs.gen_stmts(rng, 3)) for _ in range(3)]
             items.append((" ".join(sds + ["PARSE:" + hx(p) for p in ps]), (set(cfg), len(sds), ps)))
